@@ -21,6 +21,7 @@ from vk.refserver import RefServer
 T_GAI, T_SOCKET, T_SETSOCKOPT, T_WRAP, T_SETTIMEOUT, T_CONNECT, T_SENDALL, T_RECV, T_CLOSE = (
     "getaddrinfo", "socket", "setsockopt", "wrap_socket", "settimeout", "connect", "sendall",
     "recv", "close")
+T_UNWRAP = "unwrap"         # the orderly TLS shutdown a client may perform before close() (ssl.SSLSocket.unwrap)
 
 
 class GreenletTimeout(BaseException):
@@ -39,6 +40,7 @@ KINDS = {
     T_SOCKET: ["oserror"],
     T_SETSOCKOPT: ["oserror"],
     T_WRAP: ["oserror"],
+    T_UNWRAP: ["oserror"],
     T_SETTIMEOUT: ["oserror", "valueerror"],
     T_CONNECT: ["refused", "timeout", "unreach", "overflow"],
     T_SENDALL: ["reset", "brokenpipe", "timeout", "timeout_delivered", "eintr_partial", "timeout_partial"],
@@ -690,6 +692,10 @@ class TLSSocket:
     def unwrap(self):
         """orderly TLS shutdown (ssl.SSLSocket.unwrap): needs a live connection - on a broken one it fails like the real thing"""
         raw = self.raw
-        if raw.closed or not raw.connected or raw.peer_closed or raw.faulted or raw.fault_kind is not None:
+        broken = raw.closed or not raw.connected or raw.peer_closed or raw.faulted or raw.fault_kind is not None
+        k = raw.net._step(T_UNWRAP, raw)          # a socket call like the others: faults and interrupts can arrive here
+        if k in BASE_EXC_KINDS:
+            raise make_exc(k)
+        if k or broken:
             raise OSError(errno.ENOTCONN, "TLS shutdown on a broken connection (fake)")
         return raw
